@@ -57,6 +57,17 @@ impl TestRunnerAdapter {
             let mut last_checked_pc = None;
             while thread_is_connected.load(Ordering::Relaxed) {
                 let state = *thread_state.lock().unwrap();
+                #[cfg(datatrash_mos_verif)]
+                let state = {
+                    // re-read under the lock so that the logged value is the one the loop acts on
+                    let g = thread_state.lock().unwrap();
+                    if let MachineRunningState::Running = *g {
+                        crate::verif_dbg::event("m_read", "\"state\":\"Running\"");
+                    }
+                    *g
+                };
+                #[cfg(datatrash_mos_verif)]
+                crate::verif_dbg::perturb("m_after_read");
                 match state {
                     MachineRunningState::Launching | MachineRunningState::Stopped(_) => {
                         thread::sleep(Duration::from_millis(50));
@@ -80,15 +91,53 @@ impl TestRunnerAdapter {
                                     thread_sender
                                         .send(MachineEvent::RunningStateChanged { old, new })
                                         .unwrap();
+                                    #[cfg(datatrash_mos_verif)]
+                                    crate::verif_dbg::event(
+                                        "m_check",
+                                        &format!(
+                                            "\"pc\":{},\"checked\":true,\"hit\":true,\"old\":\"{}\"",
+                                            pc.as_u16(),
+                                            crate::verif_dbg::state_name(&old)
+                                        ),
+                                    );
                                     continue;
                                 }
+                                #[cfg(datatrash_mos_verif)]
+                                crate::verif_dbg::event(
+                                    "m_check",
+                                    &format!("\"pc\":{},\"checked\":true,\"hit\":false,\"old\":\"\"", pc.as_u16()),
+                                );
+                            } else {
+                                #[cfg(datatrash_mos_verif)]
+                                crate::verif_dbg::event(
+                                    "m_check",
+                                    &format!("\"pc\":{},\"checked\":false,\"hit\":false,\"old\":\"\"", pc.as_u16()),
+                                );
                             }
                         }
+                        #[cfg(datatrash_mos_verif)]
+                        crate::verif_dbg::perturb("m_before_exec");
 
                         {
                             let mut runner = thread_runner.write().unwrap();
+                            #[cfg(datatrash_mos_verif)]
+                            let verif_pc0 = runner.cpu().get_program_counter();
+                            #[cfg(datatrash_mos_verif)]
+                            let verif_state = crate::verif_dbg::state_name(&thread_state.lock().unwrap());
                             match runner.execute_instruction() {
                                 Ok(result) => {
+                                    #[cfg(datatrash_mos_verif)]
+                                    crate::verif_dbg::event(
+                                        "m_exec",
+                                        &format!(
+                                            "\"pc\":{},\"pc1\":{},\"cyc\":{},\"end\":{},\"state\":\"{}\"",
+                                            verif_pc0,
+                                            runner.cpu().get_program_counter(),
+                                            runner.num_cycles(),
+                                            !matches!(result, ExecuteResult::Running),
+                                            verif_state
+                                        ),
+                                    );
                                     // Give rest of core a chance to do something
                                     thread::sleep(Duration::from_millis(0));
 
@@ -175,6 +224,16 @@ impl TestRunnerAdapter {
         let mut state = self.state.lock().unwrap();
         let old = *state;
         *state = new;
+        #[cfg(datatrash_mos_verif)]
+        crate::verif_dbg::event(
+            "set_state",
+            &format!(
+                "\"old\":\"{}\",\"new\":\"{}\",\"pc\":{}",
+                crate::verif_dbg::state_name(&old),
+                crate::verif_dbg::state_name(&new),
+                crate::verif_dbg::state_pc(&new)
+            ),
+        );
         self.event_sender
             .send(MachineEvent::RunningStateChanged { old, new })?;
         Ok(())
@@ -206,11 +265,15 @@ impl MachineAdapter for TestRunnerAdapter {
 
     fn start(&mut self) -> MosResult<()> {
         *self.state.lock().unwrap() = MachineRunningState::Running;
+        #[cfg(datatrash_mos_verif)]
+        crate::verif_dbg::event("start", "");
         Ok(())
     }
 
     fn stop(&mut self) -> MosResult<()> {
         self.is_connected.store(false, Ordering::Relaxed);
+        #[cfg(datatrash_mos_verif)]
+        crate::verif_dbg::event("stop", "");
         Ok(())
     }
 
@@ -229,6 +292,16 @@ impl MachineAdapter for TestRunnerAdapter {
 
     fn pause(&mut self) -> MosResult<()> {
         let pc = self.runner.read().unwrap().cpu().get_program_counter();
+        #[cfg(datatrash_mos_verif)]
+        let pc = {
+            // re-read under the lock so that the logged value is the one that is stored
+            let r = self.runner.read().unwrap();
+            let pc = r.cpu().get_program_counter();
+            crate::verif_dbg::event("p_read", &format!("\"pc\":{},\"cyc\":{}", pc, r.num_cycles()));
+            pc
+        };
+        #[cfg(datatrash_mos_verif)]
+        crate::verif_dbg::perturb("p_between");
         self.update_state(MachineRunningState::Stopped(ProgramCounter::new(
             pc as usize,
         )))?;
@@ -238,7 +311,19 @@ impl MachineAdapter for TestRunnerAdapter {
     fn next(&mut self) -> MosResult<()> {
         {
             let mut runner = self.runner.write().unwrap();
+            #[cfg(datatrash_mos_verif)]
+            let verif_pc0 = runner.cpu().get_program_counter();
             runner.step_over()?;
+            #[cfg(datatrash_mos_verif)]
+            crate::verif_dbg::event(
+                "s_exec",
+                &format!(
+                    "\"kind\":\"next\",\"pc\":{},\"pc1\":{},\"cyc\":{}",
+                    verif_pc0,
+                    runner.cpu().get_program_counter(),
+                    runner.num_cycles()
+                ),
+            );
         }
         self.pause()?;
         Ok(())
@@ -247,7 +332,19 @@ impl MachineAdapter for TestRunnerAdapter {
     fn step_in(&mut self) -> MosResult<()> {
         {
             let mut runner = self.runner.write().unwrap();
+            #[cfg(datatrash_mos_verif)]
+            let verif_pc0 = runner.cpu().get_program_counter();
             runner.execute_instruction()?;
+            #[cfg(datatrash_mos_verif)]
+            crate::verif_dbg::event(
+                "s_exec",
+                &format!(
+                    "\"kind\":\"stepIn\",\"pc\":{},\"pc1\":{},\"cyc\":{}",
+                    verif_pc0,
+                    runner.cpu().get_program_counter(),
+                    runner.num_cycles()
+                ),
+            );
         }
         self.pause()?;
         Ok(())
@@ -256,7 +353,19 @@ impl MachineAdapter for TestRunnerAdapter {
     fn step_out(&mut self) -> MosResult<()> {
         {
             let mut runner = self.runner.write().unwrap();
+            #[cfg(datatrash_mos_verif)]
+            let verif_pc0 = runner.cpu().get_program_counter();
             runner.step_out()?;
+            #[cfg(datatrash_mos_verif)]
+            crate::verif_dbg::event(
+                "s_exec",
+                &format!(
+                    "\"kind\":\"stepOut\",\"pc\":{},\"pc1\":{},\"cyc\":{}",
+                    verif_pc0,
+                    runner.cpu().get_program_counter(),
+                    runner.num_cycles()
+                ),
+            );
         }
         self.pause()?;
         Ok(())
@@ -267,7 +376,20 @@ impl MachineAdapter for TestRunnerAdapter {
         source_path: &str,
         breakpoints: Vec<MachineBreakpoint>,
     ) -> MosResult<Vec<MachineValidatedBreakpoint>> {
-        *self.breakpoints.lock().unwrap() = breakpoints.clone();
+        #[cfg(not(datatrash_mos_verif))]
+        {
+            *self.breakpoints.lock().unwrap() = breakpoints.clone();
+        }
+        #[cfg(datatrash_mos_verif)]
+        {
+            let mut g = self.breakpoints.lock().unwrap();
+            *g = breakpoints.clone();
+            let starts: Vec<String> = breakpoints
+                .iter()
+                .map(|b| format!("{}", b.range.start.as_u16()))
+                .collect();
+            crate::verif_dbg::event("set_bps", &format!("\"pcs\":[{}]", starts.join(",")));
+        }
         Ok(breakpoints
             .into_iter()
             .enumerate()
